@@ -6,6 +6,7 @@ pub mod capi_conc;
 pub mod conc;
 pub mod crash;
 pub mod faults;
+pub mod handles;
 pub mod lifecycle;
 
 pub fn all() -> Vec<&'static dyn Check> {
@@ -14,6 +15,7 @@ pub fn all() -> Vec<&'static dyn Check> {
     v.extend(crash::checks());
     v.extend(conc::checks());
     v.extend(capi_conc::checks());
+    v.extend(handles::checks());
     v.extend(faults::checks());
     v
 }
